@@ -451,6 +451,23 @@ func runCovers(results []*FuncResult, work string) []coverResult {
 			file := filepath.Join(work, fmt.Sprintf("cover-%x.smt2", h[:6]))
 			os.WriteFile(file, []byte(sb.String()), 0o644)
 			res := runSolver(solvers[0], file, 3)
+			if res.result != "unsat" {
+				// the declarations and their axioms alone (struct constructors, spec functions, library facts) must be
+				// consistent: an inconsistency there makes every obligation of the function provable
+				var ab strings.Builder
+				ab.WriteString(prelude)
+				for _, d := range r.Decls {
+					ab.WriteString(d + "\n")
+				}
+				ab.WriteString("(check-sat)\n")
+				afile := filepath.Join(work, fmt.Sprintf("axioms-%x.smt2", h[:6]))
+				os.WriteFile(afile, []byte(ab.String()), 0o644)
+				if ar, _ := race(afile, []int{0, 1}, 4, false); ar.result == "unsat" {
+					res = ar
+					sb.Reset()
+					sb.WriteString(ab.String())
+				}
+			}
 			if res.result == "unsat" {
 				os.MkdirAll(filepath.Join(verifDir(), "work", "cover-unsat"), 0o755)
 				os.WriteFile(filepath.Join(verifDir(), "work", "cover-unsat", filepath.Base(file)), []byte(sb.String()), 0o644)
